@@ -12,7 +12,9 @@ import (
 	"path/filepath"
 	"runtime/debug"
 	"strings"
+	"sync/atomic"
 	"testing"
+	"time"
 
 	"github.com/theparanoids/ysshra/agent/yubiagent"
 	"golang.org/x/crypto/ssh"
@@ -83,9 +85,17 @@ func genPivOutput(r *sim.Rng) (string, int) {
 			lines = append(lines, "Slot "+slot+":\t", "\tAlgorithm:\tECCP256", "\tSubject DN:\tCN=x")
 		}
 	}
-	out := strings.Join(lines, "\n")
+	if r.Bool(0.1) {
+		// a very long line before the slots (e.g. a dumped object): line readers with a token limit stop here
+		lines = append([]string{"Blob:\t" + strings.Repeat("ab", 40000)}, lines...)
+	}
+	sep := "\n"
+	if r.Bool(0.15) {
+		sep = "\r\n" // the statement counts characters of lines split at the newline: a carriage return is a character
+	}
+	out := strings.Join(lines, sep)
 	if r.Bool(0.8) {
-		out += "\n"
+		out += sep
 	}
 	if r.Bool(0.1) && len(out) > 3 {
 		out = out[:r.Range(1, len(out)-1)] // truncated output
@@ -270,6 +280,7 @@ func execC13(t *testing.T, raw json.RawMessage) *sim.Outcome {
 		}
 		served = yubiagent.VerifNewServer(st, tool, p.Remote)
 	}
+	var stalled atomic.Bool
 	a, b := net.Pipe()
 	srvConn := &simconn.Chunked{Conn: b, ReadSizes: p.WChunks, WriteSizes: p.RChunks}
 	cliConn := &simconn.Chunked{Conn: a, ReadSizes: p.RChunks, WriteSizes: p.WChunks}
@@ -296,7 +307,17 @@ func execC13(t *testing.T, raw json.RawMessage) *sim.Outcome {
 	}
 	var sig []string
 	ended := false
+	// watchdog (real time; this world has no clock): an operation that never completes is a violation
+	stallTimer := time.AfterFunc(20*time.Second, func() {
+		stalled.Store(true)
+		a.Close()
+		b.Close()
+	})
+	defer stallTimer.Stop()
 	for i, op := range p.Ops {
+		if stalled.Load() {
+			break
+		}
 		if ended {
 			break
 		}
@@ -548,6 +569,12 @@ func execC13(t *testing.T, raw json.RawMessage) *sim.Outcome {
 	a.Close()
 	b.Close()
 	<-done
+	if stalled.Load() {
+		o.All = nil
+		o.Fail("any.stalled", "stalled", len(sig), "the client session did not complete within 20 s of real time: an operation over the chunked transport never returned (operations so far: %v)", sig)
+		o.Signature = "stalled"
+		return o
+	}
 	if srvPanic != nil && o.All == nil {
 		o.Fail("C13.no_crash", "server_panic:"+panicSite(srvStack), len(p.Ops), "the server side crashed: %v", srvPanic)
 	}
